@@ -12,7 +12,7 @@ RespOK(e) == Len(e.resp) = Len(resp) /\ \A i \in 1..Len(resp) : e.resp[i] = resp
 ReopenOK(e) == \A k \in 1..Len(e.resp) : e.resp[k] = (IF k \in Keys THEN db[k] ELSE None)
 
 TNext ==
-  \/ /\ l <= Len(Rec) /\ Rec[l].t = "store" /\ Rec[l].op = "drain" /\ cmdQ # <<>>
+  \/ /\ l <= Len(Rec) /\ Rec[l].t = "store" /\ Rec[l].op = "drain" /\ cmdQ # <<>> /\ ~(Len(Rec[l].resp) = 1 /\ Rec[l].resp[1] = -99)
      /\ Apply /\ UNCHANGED <<l, viol, nsteps>>
   \/ /\ l <= Len(Rec) /\ l' = l + 1
      /\ LET e == Rec[l] IN
@@ -21,6 +21,8 @@ TNext ==
             [] e.t = "store" /\ e.op = "write"  -> WriteR(e.h, e.key, e.val) /\ UNCHANGED viol /\ nsteps' = nsteps + 1
             [] e.t = "store" /\ e.op = "read"   -> Read(e.h, e.key) /\ UNCHANGED viol /\ nsteps' = nsteps + 1
             [] e.t = "store" /\ e.op = "notify" -> NotifyRead(e.h, e.key) /\ UNCHANGED viol /\ nsteps' = nsteps + 1
+            [] e.t = "store" /\ e.op = "drain" /\ Len(e.resp) = 1 /\ e.resp[1] = -99 ->    \* the store or its client code panicked
+                 /\ viol' = viol \cup {<<"C16.Panicked", l>>} /\ UNCHANGED vars /\ nsteps' = nsteps + 1
             [] e.t = "store" /\ e.op = "drain"  ->
                  /\ cmdQ = <<>>
                  /\ viol' = IF RespOK(e) THEN viol ELSE viol \cup {<<"C16.ResponsesMatchSpec", l>>}
